@@ -585,6 +585,10 @@ class PGPSignature(Armorable, ParentRef, PGPObject):
         if unarmored['magic'] is not None and unarmored['magic'] != 'SIGNATURE':
             raise ValueError('Expected: SIGNATURE. Got: {}'.format(str(unarmored['magic'])))
 
+        if unarmored.get('cleartext') is not None:
+            # a cleartext-signed message is a message (PGPMessage), not a detached signature
+            raise ValueError('Expected: SIGNATURE. Got: SIGNED MESSAGE')
+
         if unarmored['headers'] is not None:
             self.ascii_headers = unarmored['headers']
 
@@ -1300,6 +1304,10 @@ class PGPMessage(Armorable, PGPObject):
 
         if unarmored['headers'] is not None:
             self.ascii_headers = unarmored['headers']
+
+        if unarmored['magic'] == 'SIGNATURE' and unarmored.get('cleartext') is None:
+            # a detached signature block, not a cleartext-signed message
+            raise ValueError('Expected: MESSAGE. Got: SIGNATURE')
 
         # cleartext signature
         if unarmored['magic'] == 'SIGNATURE':
